@@ -33,6 +33,10 @@ class Return(Exception):
         self.val = val
 
 
+class ContinueLoop(Exception):
+    pass
+
+
 class BreakLoop(Exception):
     pass
 
@@ -353,6 +357,8 @@ class Interp:
             self.switch(n)
         elif k == 'BreakStmt':
             raise BreakLoop()
+        elif k == 'ContinueStmt':
+            raise ContinueLoop()
         elif k in ('WhileStmt', 'ForStmt', 'DoStmt', 'CXXForRangeStmt'):
             raise Unsupported('loop')
         else:
